@@ -132,9 +132,8 @@ pub fn c16_push_no_panic_body(cap: usize, count: usize, vbits: u64) {
     r.count.store(count, Relaxed);
     r.push(f64::from_bits(vbits));
     assert!(r.count.load(Relaxed) == count + 1);
-    kani::cover!(cap == 0 && count == 0);
-    kani::cover!(cap == 0 && count > 0);
-    kani::cover!(cap == MAXCAP && count == cap);
+    // no kani::cover! here on purpose: Kani prints one playback test per cover as well and the driver replays the first one
+    // printed; reachability of (cap == 0, sampled push) is guarded by the covers of c16_push_contract
 }
 #[cfg(kani)]
 #[kani::proof]
@@ -142,6 +141,69 @@ pub fn c16_push_no_panic_body(cap: usize, count: usize, vbits: u64) {
 #[kani::stub(fastrand, ghost::fastrand_stub)]
 fn c16_push_no_panic() {
     c16_push_no_panic_body(kani::any(), kani::any(), kani::any());
+}
+
+// ------------------------------------------------------------------------------------------------
+// "every position retained with the same probability": the FIRST sampled item (stream position cap, the (cap+1)-th item)
+// must be kept with probability cap/(cap+1), i.e. dropped with probability 1/(cap+1) > 0.
+//   Kani side   : the draw is requested from cap+1 values and the item is stored iff the draw is < cap, so BOTH outcomes
+//                 (kept / dropped) are possible draws;
+//   replay side : a counterexample of this clause cannot be shown by one deterministic run, so the replay build (real PRNG,
+//                 no stub) runs the same push 256 times independently and fails when the item is kept every single time
+//                 (a correct reservoir does that with probability (cap/(cap+1))^256 <= (4/5)^256 < 2e-25).
+pub fn c16_first_sampled_push_body(cap: usize, vbits: u64) {
+    kani::assume(cap <= MAXCAP);
+    #[cfg(kani)]
+    {
+        let s = [!vbits; MAXCAP];
+        let r = match cap {
+            0 => mk(0, 0, s),
+            1 => mk(1, 1, s),
+            2 => mk(2, 2, s),
+            3 => mk(3, 3, s),
+            _ => mk(4, 4, s),
+        };
+        r.push(f64::from_bits(vbits));
+        assert!(ghost::calls() == 1);
+        assert!(ghost::upper() == cap + 1, "C16 uniformity: the (cap+1)-th item draws from cap+1 values (kept with probability cap/(cap+1))");
+        let mut kept = false;
+        let mut i = 0;
+        while i < cap {
+            if r.values[i].load(Relaxed) == vbits { kept = true; }
+            i += 1;
+        }
+        assert!(kept == (ghost::draw() < cap));
+        kani::cover!(cap == MAXCAP && !kept);
+        kani::cover!(cap == 1 && kept);
+    }
+    #[cfg(not(kani))]
+    {
+        let trials = 256;
+        let mut dropped = 0;
+        for _ in 0..trials {
+            let r = Reservoir::with_capacity(cap);
+            for i in 0..cap {
+                r.values[i].store(!vbits, Relaxed);
+            }
+            r.count.store(cap, Relaxed);
+            r.push(f64::from_bits(vbits)); // capacity 0 on the defective tree: panics here (empty range)
+            if !(0..cap).any(|i| r.values[i].load(Relaxed) == vbits) {
+                dropped += 1;
+            }
+        }
+        assert!(
+            dropped > 0,
+            "the item at stream position {cap} was retained in {trials} of {trials} independent trials; Algorithm R keeps it with probability {cap}/{}",
+            cap + 1
+        );
+    }
+}
+#[cfg(kani)]
+#[kani::proof]
+#[kani::unwind(6)]
+#[kani::stub(fastrand, ghost::fastrand_stub)]
+fn c16_first_sampled_push() {
+    c16_first_sampled_push_body(kani::any(), kani::any());
 }
 
 // ------------------------------------------------------------------------------------------------
@@ -170,10 +232,11 @@ fn drain_contract_at(cap: usize, count: usize, s: [u64; MAXCAP]) {
         assert!(d.len() == expect, "C16 drain: yields min(pushed, capacity) values");
         assert!(d.len() <= cap);
         let rate = d.sample_rate();
+        // drain() hands sample_rate exactly (yielded, pushed): c16_rate_and_reset proves rate == yielded / pushed from these
+        // two fields for every pair of usize values (modular composition; the quotient itself is not re-proved here)
+        assert!(d.len == expect && d.unsampled_len == count && d.idx == 0, "C16 drain: Drain carries (yielded, pushed)");
         if count <= cap {
             assert!(rate == 1.0, "C16 drain: all values retained => rate 1");
-        } else {
-            assert!(rate == (expect as f64) / (count as f64), "C16 drain: rate == yielded / pushed");
         }
         let mut i = 0;
         while i < expect {
@@ -227,7 +290,9 @@ pub fn c16_rate_and_reset_body(count: usize, cap: usize) {
             assert!(rate == 1.0);
         } else {
             // values yielded divided by values pushed since the previous drain
-            assert!(rate == (yielded as f64) / (count as f64), "C16 sample_rate == yielded / pushed");
+            assert!(rate.to_bits() == ((yielded as f64) / (count as f64)).to_bits(), "C16 sample_rate == yielded / pushed");
+            assert!(rate <= 1.0 && rate >= 0.0);
+            assert!(cap == 0 || rate > 0.0);
         }
         assert!(ExactSizeIterator::len(&d) == yielded);
         kani::cover!(count > cap && cap > 0 && rate < 0.5);
@@ -235,8 +300,10 @@ pub fn c16_rate_and_reset_body(count: usize, cap: usize) {
     }
     assert!(r.count.load(Relaxed) == 0, "C16 Drain::drop resets count");
 }
+// solver: proving two 53-bit float dividers equivalent takes CaDiCaL > 10 min; cvc5 does it in seconds
 #[cfg(kani)]
 #[kani::proof]
+#[kani::solver(cvc5)]
 fn c16_rate_and_reset() {
     c16_rate_and_reset_body(kani::any(), kani::any());
 }
